@@ -3,9 +3,11 @@
 /verif/seeded/<ID>-<m>/ (patch.diff, demo/, notes.md, meta.json)."""
 import json, os, shutil, sys, re, glob
 pid, m = sys.argv[1], sys.argv[2]
+base = os.environ.get("SEED_BASE", "/tmp/mut")
+tag = os.environ.get("SEED_TAG", "")
 extra = json.loads(sys.argv[3]) if len(sys.argv) > 3 else {}
-src = f"/tmp/mut/{pid}/out/{m}"
-dst = f"/verif/seeded/{pid}-{m}"
+src = f"{base}/{pid}/out/{m}"
+dst = f"/verif/seeded/{pid}-{tag}{m}"
 os.makedirs(dst, exist_ok=True)
 shutil.copy(f"{src}/patch.diff", f"{dst}/patch.diff")
 if os.path.isdir(f"{dst}/demo"): shutil.rmtree(f"{dst}/demo")
@@ -13,16 +15,16 @@ shutil.copytree(f"{src}/demo", f"{dst}/demo")
 shutil.copy(f"{src}/notes.md", f"{dst}/notes.md")
 # verification line
 ver = ""
-for f in glob.glob("/tmp/mut/verify*.log"):
+for f in glob.glob(f"{base}/verify*.log"):
     for line in open(f):
-        if line.startswith(f"VERIFY /tmp/mut/{pid} {m}:"):
+        if line.startswith(f"VERIFY {base}/{pid} {m}:"):
             ver = line.strip()
 notes = open(f"{src}/notes.md").read()
 title = next((l.lstrip('# ').strip() for l in notes.splitlines() if l.strip()), "")
 readme = open(glob.glob(f"{src}/demo/README*")[0]).read().strip()
 files = sorted(set(re.findall(r'^diff --git a/(\S+)', open(f"{src}/patch.diff").read(), re.M)))
 meta = {
-    "id": f"{pid}-{m}",
+    "id": f"{pid}-{tag}{m}",
     "property": pid,
     "origin": "written by an independent sub-agent that was given only the text of the property and a scratch worktree of /repo (nothing from /verif)",
     "title": title,
